@@ -391,6 +391,9 @@ T5_SCRIPTS = {
     "nested-while-continue-then-rest-of-body": "mon = SerialMonitor(9600)\nn = 0\nwhile True:\n    k = 0\n    while k < 3:\n        k = k + 1\n        if k == 2:\n            continue\n        mon.write(k)\n    n = n + 1\n    mon.write(n)\n    sleep(5)\n",
     "main-loop-continue-skips-rest-only": "mon = SerialMonitor(9600)\nn = 0\nwhile True:\n    n = n + 1\n    if n % 2 == 0:\n        continue\n    mon.write(n)\n    sleep(5)\n",
     "nested-break-then-rest-of-body": "mon = SerialMonitor(9600)\nn = 0\nwhile True:\n    for i in range(5):\n        if i == 2:\n            break\n        mon.write(i)\n    n = n + 1\n    mon.write(n)\n    sleep(5)\n",
+    "prologue-derived-after-reassignment": "mon = SerialMonitor(9600)\nbase = 3\nbase = 10\nlimit = base + 1\nmon.write(limit)\nwhile True:\n    limit = limit + 11\n    mon.write(limit)\n    sleep(5)\n",
+    "prologue-order-with-branch-and-loop": "mon = SerialMonitor(9600)\nx = 1\nfor i in range(3):\n    x = x * 2\ny = x + 1\nc = 1\nif c > 0:\n    y = y + 100\nz = y - x\nmon.write(y)\nmon.write(z)\nwhile True:\n    mon.write(z + y)\n    sleep(5)\n",
+    "continue-in-elif-arm": "mon = SerialMonitor(9600)\nn = 0\nwhile True:\n    n = n + 1\n    if n == 1:\n        mon.write('one')\n    elif n % 2 == 0:\n        continue\n    else:\n        mon.write('odd')\n    mon.write(n)\n    sleep(5)\n",
     "motor-speed-variable": "mon = SerialMonitor(9600)\nm = DCMotor(2, 3, 5)\nspeed = 0.2\nwhile True:\n    m.set_speed(speed)\n    mon.write(speed)\n    speed = speed + 0.1\n    sleep(5)\n",
     "brightness-variable": "mon = SerialMonitor(9600)\nl = Led(9)\nlevel = 10\nwhile True:\n    l.set_brightness(level)\n    mon.write(level)\n    level = level + 20\n    sleep(5)\n",
     "tone-variable": "mon = SerialMonitor(9600)\nbz = Buzzer(8)\nfreq = 440\nwhile True:\n    bz.play_tone(freq)\n    mon.write(freq)\n    freq = freq + 110\n    sleep(5)\n",
